@@ -14,7 +14,7 @@ PROPS = {
         "level": "model_checking",
         "technique": "stateless model checking of the real engine goroutines under a controlled scheduler (preemption-bounded DFS with trace-equivalence pruning)",
         "parts": [{"engine": "sched", "family": "C05"}],
-        "budget": {"quick": 100, "thorough": 1200},
+        "budget": {"quick": 300, "thorough": 1200},
         "design_ref": "§5 C05, §2.2",
         "text": "exhaustive exploration of every interleaving (within the stated deviation bound) of concurrent IngestRows/Flush/Start/Stop callers around the real engine, with at most one injected store fault; each execution is checked for exactly-one answers on every accepted done channel",
         "note": "bounded: 2 producers x <=2 batches, deviation bound 1 (quick) / 2 (thorough); shim runtime semantics as pinned by the litmus tests",
@@ -26,7 +26,7 @@ def _sched(pid, title, text, note, budget=None, extra=None):
     PROPS[pid] = {"title": title, "level": "model_checking",
                   "technique": "stateless model checking of the real engine goroutines under a controlled scheduler (deviation-bounded DFS over schedules, select choices, timer firings and injected faults, with trace-equivalence pruning)",
                   "parts": [{"engine": "sched", "family": pid}] + (extra or []),
-                  "budget": budget or {"quick": 100, "thorough": 1500}, "design_ref": "§5 " + pid + ", §2.2",
+                  "budget": budget or {"quick": 300, "thorough": 1500}, "design_ref": "§5 " + pid + ", §2.2",
                   "text": text, "note": note, "assumptions": COMMON_SCHED}
 
 _sched("C07", "acknowledgements respect acceptance order",
@@ -64,7 +64,7 @@ COMMON_SEQ = [
 def _seq(pid, title, text, note, technique, level="exploration", mode=None, extra_parts=None, budget=None):
     parts = [{"engine": "seq", "mode": mode or pid}] + (extra_parts or [])
     PROPS[pid] = {"title": title, "level": level, "technique": technique, "parts": parts,
-                  "budget": budget or {"quick": 90, "thorough": 1200}, "text": text, "note": note,
+                  "budget": budget or {"quick": 200, "thorough": 1200}, "text": text, "note": note,
                   "design_ref": "§5 " + pid + ", §2.3", "assumptions": COMMON_SEQ}
 
 _seq("C01", "no false negatives",
@@ -75,12 +75,12 @@ _seq("C02", "exact results",
      "same enumeration as C01 with the exactness oracle: result multiset ⊆ stored, reference-verified rows, equality without prefilter and the whole-block union rule with prefilter",
      "as C01; rows with duplicate raw-JSON keys are identified with their stored row (their materialisation is C03's subject); scheduler part: two concurrent queries over pooled scan buffers (deterministic LIFO pool, Pool.Get/Put are scheduling points) must each return exactly the stored matching multiset",
      "bounded-exhaustive input and history enumeration against a reference model (explicit enumeration, no sampling); stateless model checking of two concurrent queries under the controlled scheduler",
-     extra_parts=[{"engine": "sched", "family": "C03", "only": "pool-", "budget": {"quick": 200, "thorough": 900}}], budget={"quick": 200, "thorough": 1800})
+     extra_parts=[{"engine": "sched", "family": "C03", "only": "pool-", "budget": {"quick": 200, "thorough": 900}}], budget={"quick": 400, "thorough": 1800})
 _seq("C23", "statistics account for every block once",
      "per-block accounting rules evaluated on the Stats of every query of the C01 enumeration, against block contents read back through the public helpers",
      "sweep part: fault-free completions; fault part: a failure at every DataStore call position of 10 queries x 5 layouts x concurrency {1,4}; scheduler part: queries ended by Close or cancellation while a block scan is unfinished (450-row block, 66-row block, injected faults) - at-most-once, processed source of every returned row, zero counts for skipped blocks; all-or-none per file is not asserted for queries ended by Close or cancellation (blocks never reached are not evaluated blocks)",
      "bounded-exhaustive enumeration of queries x layouts x fault positions with an accounting oracle, plus controlled-scheduler exploration of early termination",
-     extra_parts=[{"engine": "sched", "family": "C23"}], budget={"quick": 200, "thorough": 1500})
+     extra_parts=[{"engine": "sched", "family": "C23"}], budget={"quick": 400, "thorough": 1500})
 _seq("C24", "pruning is effective",
      "every query of the C01 enumeration runs over a recording DataStore; opens and read extents are compared with the pruning the stored filters and prefilter metadata imply",
      "expected pruning is computed from the stored filters themselves (independent filter evaluator, fail-open on absent filters) and the public EvaluateDataBlockMetadata",
@@ -90,7 +90,7 @@ _seq("C03", "faithful, independent rows",
      "every decodable row of the row alphabet on every compression and block split is paired by reflect.DeepEqual with json.Unmarshal(json.Marshal(row)); retained rows are compared with deep copies after other results were overwritten and later queries reused the scan buffers",
      "sequential part: buffer reuse across queries of one goroutine; concurrent part (scheduler engine): two queries with sync.Pool as a deterministic LIFO pool whose Get/Put are scheduling points, delay bound 2/3",
      "bounded-exhaustive input enumeration against encoding/json as the reference decoder, plus controlled-scheduler exploration of concurrent pool reuse",
-     extra_parts=[{"engine": "sched", "family": "C03"}], budget={"quick": 160, "thorough": 1500})
+     extra_parts=[{"engine": "sched", "family": "C03"}], budget={"quick": 400, "thorough": 1500})
 _seq("C04", "prefilters never prune a satisfying block",
      "every block population of one or two boundary values x every operator/operand combination, decided by exact math/big arithmetic at function, metadata, flush and merge level; AND/OR trees over minmax and partition conditions",
      "NaN excluded (documented as not indexed); ±Inf only at function level (not JSON-marshalable)",
@@ -124,12 +124,12 @@ _seq("C06", "acknowledgements are truthful",
      "a 4-batch history is re-run with a failure at every store call position (quick: singly; thorough: every ordered pair) over 4 store variants; after two further fault-free flushes and a Merge the rows visible on this and on a fresh engine must equal the rows of nil-acknowledged batches",
      "plain build, default schedule (store calls of a sequential history are deterministic); MetaStore with atomic Update",
      "exhaustive fault-position enumeration over a recorded history; stateless model checking of concurrent ingest/Flush callers (C07 family: every nil acknowledgement is checked against the committed rows at that instant)", level="fault_enumeration",
-     extra_parts=[{"engine": "sched", "family": "C07", "budget": {"quick": 100, "thorough": 1200}}], budget={"quick": 200, "thorough": 2400})
+     extra_parts=[{"engine": "sched", "family": "C07", "budget": {"quick": 200, "thorough": 1200}}], budget={"quick": 400, "thorough": 2400})
 _seq("C13", "merge is all-or-nothing",
      "Merge over 3-4 files in 1-2 groups is re-run with a failure at every position of every store call kind (iterator, CreateFile, OpenFile, Seek, Read, Write, Close, Abort, Update, TombstoneFile), singly and in pairs; committed-xor-unchanged oracle on both stores, call log, return values and query answers; single-flight with a Merge held inside CreateFile",
      "plain build; MetaStore with atomic Update; concurrent part (scheduler engine): 2-3 overlapping Merge calls over tombstone-deletes / deferred-GC / object-like DataStores and both in-memory MetaStores, preemption bound 1 (2 thorough): each returns nil or ErrMergeInProgress, at least one commits, content stays exactly once",
      "exhaustive fault-position enumeration over a recorded history, plus controlled-scheduler exploration of overlapping Merge calls", level="fault_enumeration",
-     extra_parts=[{"engine": "sched", "family": "C13"}], budget={"quick": 200, "thorough": 1500})
+     extra_parts=[{"engine": "sched", "family": "C13"}], budget={"quick": 400, "thorough": 1500})
 _seq("C15", "filesystem store is crash-consistent",
      "every prefix of the os-level operation log of 4 histories and of every single-fault abort path yields process-crash and power-loss directory states (torn writes, unsynced data absent/present, every prefix or subset of unsynced directory operations); each distinct state is materialised and recovered by a fresh engine",
      "verdict is relative to the stated durability model; the operation log is produced by the implementation itself through the os shim placed by the build overlay",
@@ -142,7 +142,7 @@ _seq("C19", "corruption fails cleanly",
      "exhaustive single-byte, window, truncation, extension and splice mutations plus CRC-consistent framing-field grids of engine-written files (with and without row data hashes), each read through every helper and queried in two flows, in child processes with an address-space limit",
      "content oracles are off for files without row data hashes (corruption is then undetectable by design) except the framing oracle: row data that is not a sequence of whole length-prefixed rows must be reported by the scanner and by the match-all query; UncompressedSize left valid",
      "exhaustive mutation enumeration with process isolation, plus controlled-scheduler exploration of read failures on multi-read filter passes (pool shim: nothing is released twice; follow-up query exact)", level="fault_enumeration",
-     extra_parts=[{"engine": "sched", "family": "C19"}], budget={"quick": 200, "thorough": 1500})
+     extra_parts=[{"engine": "sched", "family": "C19"}], budget={"quick": 400, "thorough": 1500})
 _seq("C27", "silent by default",
      "all single-fault flush and merge runs, corrupt-file queries, absent-filter files, Stop deadlines against wedged stores and a plain lifecycle run in child processes whose descriptors 1 and 2 are regular files that must stay empty",
      "Logger nil; the harness itself writes nothing in the child",
